@@ -14,7 +14,7 @@ namespace Abverif.Wamp
 open Generated.WampCodes
 
 /-- well-formed schema (decidable; `schemas_wf` checks it for the concrete schemas) -/
-def Schema.WF (σ : Schema) (O : Oracles) : Prop := σ.wf = true ∧ σ.wfO O = true ∧ σ.noRoles = true
+def Schema.WF (σ : Schema) (O : Oracles) : Prop := σ.wf = true ∧ σ.wfO O = true
 
 /-- admissible message of class σ: strict (declared types, ids, URIs) and free of the values `marshal` drops -/
 def Schema.Valid (σ : Schema) (O : Oracles) (m : Msg) : Prop := σ.valid O m = true
@@ -26,10 +26,18 @@ instance (σ : Schema) (O : Oracles) (m : Msg) : Decidable (σ.Valid O m) := by
 well-formed schema, every admissible combination of options/details, payload values of any size. -/
 theorem parse_marshal (σ : Schema) (O : Oracles) (hwf : σ.WF O) (m : Msg) (hv : σ.Valid O m) :
     σ.parse O (σ.marshal m) = .ok m :=
-  parse_marshal_noRoles σ O hwf.1 hwf.2.1 hwf.2.2 m hv
+  parse_marshal_generic σ O hwf.1 hwf.2 m hv
 
-/-- the schemas covered by the generic round trip: all classes except HELLO and WELCOME (their `roles` entry is
-re-encoded by `marshal`; they are modelled and tied to the code, but outside `parse_marshal` — see C03 notes) -/
+/-- every one of the 25 schemas is well-formed (decided on the concrete schemas; codes, role names and feature lists
+regenerated from the source) — so `parse_marshal` applies to all 25 message classes -/
+theorem schemas_wf : ∀ σ ∈ all25, σ.WF oracles := by
+  have h : all25.all (fun σ => σ.wf && σ.wfO oracles) = true := by decide
+  intro σ hσ
+  have := List.all_eq_true.mp h σ hσ
+  simp only [Bool.and_eq_true] at this
+  exact ⟨this.1, this.2⟩
+
+/-- the 23 classes without a `roles` entry (all but HELLO and WELCOME); used by the C08 strictness theorems -/
 def roundTrip23 : List Schema :=
   all25.filter (fun σ => σ.noRoles)
 
@@ -42,21 +50,6 @@ theorem roundTrip23_names :
        cs!"Subscribe", cs!"Subscribed", cs!"Unsubscribe", cs!"Unsubscribed", cs!"Event", cs!"EventReceived",
        cs!"Call", cs!"Cancel", cs!"Result", cs!"Register", cs!"Registered", cs!"Unregister", cs!"Unregistered",
        cs!"Invocation", cs!"Interrupt", cs!"Yield"] := by decide
-
-/-- every modelled schema is well-formed (decided on the concrete schemas, codes regenerated from the source) -/
-theorem schemas_wf : ∀ σ ∈ roundTrip23, σ.WF oracles := by
-  have h : roundTrip23.all (fun σ => σ.wf && σ.wfO oracles && σ.noRoles) = true := by decide
-  intro σ hσ
-  have := List.all_eq_true.mp h σ hσ
-  simp only [Bool.and_eq_true] at this
-  exact ⟨this.1.1, this.1.2, this.2⟩
-
-/-- HELLO and WELCOME satisfy the layout part of well-formedness as well -/
-theorem schemas_wf_all25 : ∀ σ ∈ all25, σ.wf = true ∧ σ.wfO oracles = true := by
-  have h : all25.all (fun σ => σ.wf && σ.wfO oracles) = true := by decide
-  intro σ hσ
-  have := List.all_eq_true.mp h σ hσ
-  simpa [Bool.and_eq_true] using this
 
 /-- the admissible element counts of every schema are the ones written in the class's `parse` (regenerated) -/
 theorem schema_lengths : all25.map (fun σ => (σ.name, σ.lengths)) = Generated.WampCodes.lengths := by decide
@@ -96,11 +89,10 @@ structure Codec where
   dom : WVal → Prop
   law : ∀ v, dom v → dec (enc v) = some v
 
-theorem serialize_unserialize_one (C : Codec) (σ : Schema) (hσ : σ ∈ roundTrip23) (m : Msg)
+theorem serialize_unserialize_one (C : Codec) (σ : Schema) (hσ : σ ∈ all25) (m : Msg)
     (hv : σ.Valid oracles m) (hdom : C.dom (.list (σ.marshal m))) :
     (C.dec (C.enc (.list (σ.marshal m)))).map (unserializeOne oracles) = some (.ok (σ, m)) := by
-  have hall : σ ∈ all25 := (List.mem_filter.mp hσ).1
-  rw [C.law _ hdom, Option.map_some, unserialize_marshal σ hall, parse_marshal σ oracles (schemas_wf σ hσ) m hv]
+  rw [C.law _ hdom, Option.map_some, unserialize_marshal σ hσ, parse_marshal σ oracles (schemas_wf σ hσ) m hv]
   rfl
 
 /-! ### batching -/
@@ -149,9 +141,9 @@ def exCall : Msg :=
    (cs!"forward_for", .list [.dict [(cs!"session", .int 1), (cs!"authid", .str cs!"a"), (cs!"authrole", .str cs!"r")]])]
 
 example : Schemas.call.Valid oracles exCall := by decide +kernel
-example : Schemas.call ∈ roundTrip23 := mem_roundTrip23 (by simp [all25]) (by decide)
+example : Schemas.call ∈ all25 := by simp [all25]
 example : Schemas.call.parse oracles (Schemas.call.marshal exCall) = .ok exCall :=
-  parse_marshal _ _ (schemas_wf _ (mem_roundTrip23 (by simp [all25]) (by decide))) _ (by decide +kernel)
+  parse_marshal _ _ (schemas_wf _ (by simp [all25])) _ (by decide +kernel)
 
 def exEventPayload : Msg :=
   [(cs!"subscription", .int 1), (cs!"publication", .int 0),
@@ -169,6 +161,28 @@ def exRegister : Msg :=
    (cs!"forward_for", .null)]
 
 example : Schemas.register.Valid oracles exRegister := by decide +kernel
+
+def exHello : Msg :=
+  [(cs!"realm", .str cs!"realm1"),
+   (cs!"roles", .dict [(cs!"caller", .dict [(cs!"caller_identification", .bool true), (cs!"progressive_call_results", .bool false)]),
+                       (cs!"subscriber", .dict [])]),
+   (cs!"authmethods", .list [.str cs!"wampcra"]), (cs!"authid", .str cs!"joe"), (cs!"authrole", .null),
+   (cs!"authextra", .dict [(cs!"k", .int 1)]), (cs!"resumable", .bool false), (cs!"resume_session", .int 77),
+   (cs!"resume_token", .str cs!"tok")]
+
+example : Schemas.hello.Valid oracles exHello := by decide +kernel
+
+def exWelcome : Msg :=
+  [(cs!"session", .int 9007199254740992), (cs!"realm", .str cs!"realm1"), (cs!"authid", .str cs!"joe"),
+   (cs!"authrole", .str cs!"user"), (cs!"authmethod", .str cs!"ticket"), (cs!"authprovider", .null),
+   (cs!"authextra", .dict [(cs!"k", .int 1)]), (cs!"resumed", .bool true), (cs!"resumable", .null),
+   (cs!"resume_token", .null),
+   (cs!"roles", .dict [(cs!"broker", .dict [(cs!"publisher_identification", .bool true)]), (cs!"dealer", .dict [])]),
+   (cs!"custom", .dict [(cs!"x_cb_node", .str cs!"n1")])]
+
+example : Schemas.welcome.Valid oracles exWelcome := by decide +kernel
+example : Schemas.welcome.parse oracles (Schemas.welcome.marshal exWelcome) = .ok exWelcome :=
+  parse_marshal _ _ (schemas_wf _ (by simp [all25])) _ (by decide +kernel)
 
 /-- values the hypotheses exclude really are lost by today's `marshal` (the model exhibits it): GOODBYE with
 `resumable = False` comes back with `resumable = None` -/
